@@ -169,12 +169,30 @@ func MergeErrorsWithContext(ctx context.Context, cs ...<-chan error) <-chan erro
 					cancel(err)
 				}
 			}
+			// Wait for the stage to actually stop, its error channel is closed
+			// when it exits. The first error is reported below without waiting.
+			for range c {
+			}
 			wg.Done()
 		}(c)
 	}
+	allDone := make(chan struct{})
 	go func() {
 		wg.Wait()
+		close(allDone)
+	}()
+	go func() {
+		/* The first value is the first error (or nil if every stage finished
+		 * without one) and is sent as soon as it is known so the owner of the
+		 * stages can cancel them. The channel is closed only after every stage
+		 * has exited, so draining it means nothing is running any more. */
+		select {
+		case <-ctx.Done():
+		case <-allDone:
+		}
 		errC <- context.Cause(ctx)
+		<-allDone
+		cancel(nil)
 		close(errC)
 	}()
 	return errC
